@@ -17,9 +17,13 @@ UNIT = dict(
         "Retry::call@Service": dict(rules=[
             # the loop invariant below speaks about the local that holds the instance observed ready
             ("R22", r"let\s+mut\s+(\w+)\s*=\s*std::mem::replace\(\s*&mut\s+self\.inner\s*,", "service"),
+            # tokio's own clock and absolute-deadline timer (optional: the pinned tree sleeps for a relative duration)
+            ("sub", "R9-paths", r"tokio::time::Instant::now\(\)", "Instant::now()", -1),
+            ("addarg", ["sleep_until"], "&*clk", -1),
+            ("R5",),
             ("sub", "R6-ready", r"futures::future::poll_fn\(\|cx\| (\w+)\.poll_ready\(cx\)\)\s*\.await", r"\1.vx_ready(Tracked(tr))", -1),
             ("R4",), ("R3",),
-            ("sub", "R9-paths", r"tokio::time::sleep", "sleep", 1),
+            ("sub", "R9-paths", r"tokio::time::(sleep\w*)", r"\1", -1),
             ("sub", "literal-types", r"let mut attempt = 0;", "let mut attempt: usize = 0;", 1),
             ("addarg", ["call", "try_withdraw", "deposit"], TR, 3),
             ("loops", {0: """invariant
